@@ -222,7 +222,57 @@ def big_operators(ctx):
     ops["scalar"] = ScalarMul(2.5, (100000, 100000), f64)
     ops["perm"] = Permutation(rng.permutation(100000), f64)
     ops["tridiag"] = Tridiagonal(np.ones(99999), 4 * np.ones(100000), np.ones(99999))
+    ops.update(small_factor_operators(ctx, rng))
     return ops
+
+
+def small_factor_operators(ctx, rng):
+    """Kronecker / KronSum with 3-4 SMALL factors of unequal sizes (Dense and Triangular): n = product is large although
+    every factor is tiny (n^2 >= 1000 x factor storage) -- the '2-4 factors' clause of the quantifier; code paths that
+    special-case tiny factors are only reached here."""
+    from cola.ops import Dense, Triangular, Kronecker, KronSum
+    PSD = cola.PSD
+
+    def fac(n, tri):
+        M = spd(rng, n)
+        return Triangular(np.tril(M) + n * np.eye(n), lower=True) if tri else PSD(Dense(M))
+    fixed = [(8, 8, 8), (8, 7, 6, 5), (4, 16, 4, 8), (12, 10, 9), (5, 6, 7, 8)]
+    drawn = []
+    tries = 0
+    while len(drawn) < 5 and tries < 200:
+        tries += 1
+        sizes = tuple(ctx.rng.randint(3, 16) for _ in range(ctx.rng.choice([3, 4])))
+        n = int(np.prod(sizes))
+        if 400 <= n <= 20000 and n * n >= 1000 * sum(x * x for x in sizes) and sizes not in drawn and sizes not in fixed:
+            drawn.append(sizes)
+    ops = {}
+    for i, sizes in enumerate(fixed + drawn):
+        tag = "x".join(map(str, sizes))
+        tri = [(i + j) % 3 == 2 for j in range(len(sizes))]           # every third factor triangular
+        ops[f"kron_small_{tag}"] = Kronecker(*[fac(n, t) for n, t in zip(sizes, tri)])
+        if i % 2 == 0:
+            ops[f"kron_smalldense_{tag}"] = Kronecker(*[fac(n, False) for n in sizes])
+        if i % 3 != 1:
+            ops[f"kronsum_small_{tag}"] = KronSum(*[fac(n, False) for n in sizes])
+    return ops
+
+
+def psd_products(ctx, rng):
+    """PSD-annotated products of structured factors (S K S with S diagonal, K Kronecker / BlockDiag), n ~ 3000-4000"""
+    from cola.ops import Dense, Kronecker, BlockDiag, Diagonal
+    PSD = cola.PSD
+    d = lambda n: PSD(Dense(spd(rng, n)))  # noqa
+    out = {}
+    K = Kronecker(d(20), d(15), d(12))
+    S = PSD(Diagonal(1. + rng.random(K.shape[0])))
+    out["psd_SKS_kron"] = PSD(S @ K @ S)
+    B = BlockDiag(d(30), d(20), multiplicities=[60, 90])
+    S2 = PSD(Diagonal(1. + rng.random(B.shape[0])))
+    out["psd_SBS_block"] = PSD(S2 @ B @ S2)
+    K1 = Kronecker(d(10), d(100))
+    S3 = PSD(Diagonal(1. + rng.random(K1.shape[0])))
+    out["psd_SKS_n1000"] = PSD(S3 @ K1 @ S3)
+    return out
 
 
 def shape_tree(A):
@@ -285,9 +335,18 @@ Eval vm_compute in (map (fun c => let e := fst c in let k := snd c in
     return {name: dict(zip(keys, r)) for (name, _, _), r in zip(cases, rows)}, out
 
 
+class _NoModel(dict):
+    """stand-in when the Coq cost model cannot be evaluated: only the absolute bound 'peak < dense n*n' is checked"""
+    def __missing__(self, key):
+        return None
+
+
 def run_cost(ctx, T, flags):
+    """T is None: table-free mode (the rule table could not be regenerated) -- measurements against the model if
+    C19_Cost still evaluates, and in any case against the absolute bound peak < n*n."""
     from cola.linalg.decompositions.decompositions import cholesky, plu
     import cola.linalg as LA
+    import c04_universe as U
     Auto = LA.Auto
     ops = big_operators(ctx)
     mism, samples = [], []
@@ -304,7 +363,8 @@ def run_cost(ctx, T, flags):
             runs.append((name, A, k))
     model, log = coq_cost(cases)
     if model is None:
-        return [dict(oracle_fail=False, what="cost shard did not compile", log=log[-1500:])], 0, {}, []
+        mism.append(dict(oracle_fail=False, what="cost shard did not compile; only the absolute bound peak < n*n is checked", log=log[-1500:]))
+        model = _NoModel()
     ratios = {}
     for (cname, _, _), (name, A, k) in zip(cases, runs):
         n = A.shape[0]
@@ -312,6 +372,11 @@ def run_cost(ctx, T, flags):
         m = model[cname]
         out, peak, dt, err = measure(lambda: A @ X)
         pe = peak / 8.0
+        if pe >= n * n and not err:
+            mism.append(dict(oracle_fail=True, what="A @ X allocated at least the dense n*n matrix", case=cname, n=n, k=k, peak_elems=round(pe), dense=n * n))
+            continue
+        if m is None:
+            continue
         storage = m["storage"]
         rec = dict(case=cname, n=n, k=k, peak_elems=round(pe), model_max=m["maxalloc"], model_total=m["total"], storage=storage, seconds=round(dt, 4))
         ratios[cname] = round(pe / max(m["total"], 1), 3)
@@ -368,6 +433,35 @@ def run_cost(ctx, T, flags):
             add(f"{fname}({nm})@b", A, lambda A=A, f=f: f(A) @ one(A), None)
             add(f"{fname}({nm},Auto())@b", A, lambda A=A, f=f: f(A, Auto()) @ one(A), None)
         add(f"pow({nm},2.5)@b", A, lambda A=A: LA.pow(A, 2.5) @ one(A), None)
+    # small-factor Kronecker / KronSum operators (3-4 tiny unequal factors)
+    for nm, A in ops.items():
+        if nm.startswith("kron_small"):
+            add(f"inv({nm})@b", A, lambda A=A: cola.inv(A) @ one(A), None)
+            add(f"inv({nm},LU())@b", A, lambda A=A: cola.inv(A, LA.LU()) @ one(A), None)
+            add(f"logdet({nm})", A, lambda A=A: cola.logdet(A), None)
+            add(f"diag({nm})", A, lambda A=A: LA.diag(A), None)
+            add(f"trace({nm},Exact())", A, lambda A=A: LA.trace(A, LA.Exact()), None)
+        if nm.startswith("kron_smalldense"):
+            add(f"cholesky({nm})@b", A, lambda A=A: cholesky(A) @ one(A), None)
+            add(f"plu({nm})", A, lambda A=A: plu(A), None)
+            add(f"sqrt({nm},Auto())@b", A, lambda A=A: LA.sqrt(A, Auto()) @ one(A), None)
+            add(f"slogdet({nm},Cholesky(),Exact())", A, lambda A=A: cola.slogdet(A, LA.Cholesky(), LA.Exact()), None)
+        if nm.startswith("kronsum_small"):
+            add(f"diag({nm})", A, lambda A=A: LA.diag(A), None)
+            add(f"trace({nm})", A, lambda A=A: LA.trace(A), None)
+            add(f"exp({nm},Auto())@b", A, lambda A=A: LA.exp(A, Auto()) @ one(A), None)
+            if not flags["exp_kronsum_requires_alg"]:
+                add(f"exp({nm})@b", A, lambda A=A: LA.exp(A) @ one(A), None)
+    # PSD-annotated products of structured factors with explicit algorithm objects, Auto, and none
+    for nm, A in psd_products(ctx, np.random.default_rng(ctx.seed + 23)).items():
+        for an, mk in (("Cholesky()", LA.Cholesky), ("LU()", LA.LU), ("Auto()", LA.Auto)):
+            add(f"logdet({nm},{an})", A, lambda A=A, mk=mk: cola.logdet(A, mk()), None)
+            add(f"inv({nm},{an})@b", A, lambda A=A, mk=mk: cola.inv(A, mk()) @ one(A), None)
+            add(f"solve({nm},b,{an})", A, lambda A=A, mk=mk: cola.solve(A, one(A), mk()), None)
+        add(f"logdet({nm})", A, lambda A=A: cola.logdet(A), None)
+        add(f"slogdet({nm},Cholesky(),Exact())", A, lambda A=A: cola.slogdet(A, LA.Cholesky(), LA.Exact()), None)
+        add(f"inv({nm})@b", A, lambda A=A: cola.inv(A) @ one(A), None)
+        add(f"solve({nm},b)", A, lambda A=A: cola.solve(A, one(A)), None)
     add("exp(kronsum2,Auto())@b", KS, lambda: LA.exp(KS, Auto()) @ one(KS), None)
     add("exp(kronsum3,Eig())@b", ops["kronsum3"], lambda: LA.exp(ops["kronsum3"], LA.Eig()) @ one(ops["kronsum3"]), None)
     add("sqrt(kron2)@b", K2, lambda: LA.sqrt(K2) @ one(K2), None)
@@ -389,7 +483,8 @@ def run_cost(ctx, T, flags):
         lcases.append((name, shape_tree(A), k))
     lmodel, log = coq_cost(lcases)
     if lmodel is None:
-        return mism + [dict(oracle_fail=False, what="cost shard (linalg) did not compile", log=log[-1500:])], len(cases), {}, samples
+        mism.append(dict(oracle_fail=False, what="cost shard (linalg) did not compile; only the absolute bound peak < n*n is checked", log=log[-1500:]))
+        lmodel = _NoModel()
     nlin = 0
     worst = 0.0
     generic_selected = []
@@ -402,8 +497,8 @@ def run_cost(ctx, T, flags):
         # the rule that finally ran, observed through plum's resolver on the live table (first dispatch of the call
         # and the forwarding dispatches that receive the same operator object)
         fn0 = name.split("(")[0]
-        fn0 = T["U"].WRAPPERS.get(fn0, fn0)
-        ch = observed_chain(T, fn0, tlog)
+        fn0 = U.WRAPPERS.get(fn0, fn0)
+        ch = observed_chain(T, fn0, tlog) if T is not None else []
         sel = None
         if ch and ch[-1][1] is not None and ch[-1][1] >= 2:
             g = ch[-1][0]
@@ -414,6 +509,14 @@ def run_cost(ctx, T, flags):
             if hint in ("LinearOperator", "Any") and r["cond"] is None:
                 generic_selected.append((name, sel))
         pe = peak / 8.0
+        if pe >= n * n:
+            mism.append(dict(oracle_fail=True, what="linear-algebra entry point on a structured operator allocated at least the dense n*n matrix" + (f" ({err})" if err else ""),
+                             case=name, n=n, peak_elems=round(pe), dense=n * n, times_dense=round(pe / (n * n), 2), seconds=round(dt, 3)))
+            continue
+        if m is None:
+            if err and "LookupError" in err:
+                mism.append(dict(oracle_fail=True, what=f"entry point raised {err}", case=name, n=n))
+            continue
         bound = DENSE_TEMPS * m["storage"] + m["total"] + 2 * n * k
         worst = max(worst, pe / bound)
         rec = dict(case=name, n=n, peak_elems=round(pe), model_bound=bound, storage=m["storage"], seconds=round(dt, 3), selected_rule=sel)
@@ -500,12 +603,28 @@ def probe_flags(T):
 
 
 def run(ctx):
+    mismatches, extra = [], {}
+    T = None
     try:
         T = TR.build_table(0)
     except TR.FailClosed as e:
-        return dict(evaluations=0, distinct_nontrivial=0, rule="", samples=[], findings=[],
-                    mismatches=[dict(oracle_fail=False, what=f"translator fails closed: {e}")])
-    mismatches, extra = [], {}
+        mismatches.append(dict(oracle_fail=False, what=f"translator fails closed (the rule table cannot be regenerated from this tree): {e}"))
+    except Exception:
+        mismatches.append(dict(oracle_fail=False, what="rule table could not be built", harness_error=traceback.format_exc()[-2000:]))
+    if T is None:
+        # table-independent part only: memory measurements on the large structured operators against the model (if it
+        # still evaluates) and the absolute bound peak < dense n*n, so that a failing input can be exhibited
+        import c04_universe as U0
+        U0.load_all()
+        flags, findings = probe_flags(None)
+        try:
+            m, n, ex, samples = run_cost(ctx, None, flags)
+        except Exception:
+            m, n, ex, samples = [dict(oracle_fail=False, what="cost correspondence crashed", harness_error=traceback.format_exc()[-2500:])], 0, {}, []
+        extra.update(ex)
+        extra["table_free_mode"] = True
+        return dict(evaluations=n, distinct_nontrivial=n, rule="table-free mode: large structured operators x entry point",
+                    samples=samples, mismatches=mismatches + m, findings=findings, extra=extra)
     flags, findings = probe_flags(T)
     # the Coq exception list and the probes must tell the same story: a flag probed absent means the exception is unused
     evaluations = 0
